@@ -95,3 +95,13 @@ impl Suggest {
     #[verifier::external_body]
     pub fn on_pattern(&mut self, p: &Pat) { unimplemented!() }
 }
+
+// ---- visit_pattern, record patterns: `{ name }`, `{ name = pattern }`, `{ Type }` (base/src/ast.rs PatternField projected on spans)
+impl Span {
+    // base::pos::Span::{new, start, end}: field accessors / constructor (definitions, 3 lines in pos.rs)
+    pub fn new(start: BytePos, end: BytePos) -> (r: Span) ensures r.start == start, r.end == end { Span { start, end } }
+    pub fn start(self) -> (r: BytePos) ensures r == self.start { self.start }
+    pub fn end(self) -> (r: BytePos) ensures r == self.end { self.end }
+}
+pub struct SpannedName { pub span: Span, pub value: Sym }
+pub enum PatternField<'a> { Type { name: SpannedName }, Value { name: SpannedName, value: Option<&'a Item> } }
